@@ -10,7 +10,7 @@ class Loaded:
     def __init__(self, modname, module, fam, suffix):
         self.modname, self.module, self.fam, self.suffix = modname, module, fam, suffix
         self.cls = {p["name"]: getattr(module, p["name"] + suffix) for p in fam["pkts"]}
-        self.root = self.cls[fam["pkts"][-1]["name"]]
+        self.root = self.cls[fam["pkts"][-1]["name"]] if fam["pkts"] else None
 
     def unload(self):
         drop = [k for k in sys.modules if k == self.modname or k.startswith(self.modname + "_")]
